@@ -296,3 +296,115 @@ def jvp(ctx, world):
         else:
             ctx.ob("A3.jvp", construct_of(e), True, e.loc, sample=nf)
     ctx.floor("A3.jvp instances", n, 24)
+
+
+# ------------------------------------------------------------------------------------------- A3.helper
+def helpers(ctx, world):
+    """The summarised helpers themselves: unbroadcast reduces exactly by the TARGET's metadata."""
+    import ast
+
+    from ..model import AnalysisError, norm_text
+    from .common import loc_of
+
+    ctx.describe("A3.helper", "unbroadcast(x, target_meta): (1) sums leading axes while ndim(x) > target_ndim, (2) for every axis where the TARGET's size is 1 sums that axis with keepdims=True - decided by the target's metadata only, never by x's own shape -, (3) casts complex to real only when the target is real; broadcast(x, target) mirrors it (expand to target_ndim, repeat size-1 axes to the target's size, real -> complex only when the target is complex)")
+    m, fn = world.repo.find_def("autograd.numpy.numpy_vjps", "unbroadcast")
+    loc = loc_of(m, fn)
+    q = "autograd.numpy.numpy_vjps.unbroadcast"
+    xp = fn.args.args[0].arg
+    metap = fn.args.args[1].arg
+    # names unpacked from the metadata tuple
+    unpack = None
+    for st in fn.body:
+        if isinstance(st, ast.Assign) and isinstance(st.targets[0], ast.Tuple) and isinstance(st.value, ast.Name) and st.value.id == metap and len(st.targets[0].elts) == 4:
+            unpack = [e.id for e in st.targets[0].elts]
+    if unpack is None:
+        raise AnalysisError("unbroadcast no longer unpacks (shape, ndim, dtype, iscomplex) from its metadata argument")
+    t_shape, t_ndim, _, t_cplx = unpack
+    whiles = [s for s in fn.body if isinstance(s, ast.While)]
+    fors = [s for s in fn.body if isinstance(s, ast.For)]
+    ifs = [s for s in fn.body if isinstance(s, ast.If)]
+
+    def names(n):
+        return {x.id for x in ast.walk(n) if isinstance(x, ast.Name)}
+
+    # (1)
+    ok1 = False
+    if len(whiles) == 1:
+        w = whiles[0]
+        c = w.test
+        ok1 = isinstance(c, ast.Compare) and len(c.ops) == 1 and isinstance(c.ops[0], ast.Gt) and isinstance(c.comparators[0], ast.Name) and c.comparators[0].id == t_ndim and xp in names(c.left) and len(w.body) == 1 and isinstance(w.body[0], ast.Assign) and _is_sum_of(w.body[0], xp, keepdims=False)
+    _ok(ctx, "A3.helper", "unbroadcast: sum leading axes while ndim(x) > target_ndim", ok1, loc, f"{q}:leading", "the leading-axes reduction of unbroadcast is not `while ndim(x) > target_ndim: x = sum(x, axis=broadcast_idx)`", "a scalar or lower-rank argument broadcast against a higher-rank one")
+    # (2)
+    ok2 = False
+    why2 = "no `for axis, size in enumerate(target_shape)` loop"
+    if len(fors) == 1:
+        f = fors[0]
+        it = f.iter
+        if isinstance(it, ast.Call) and isinstance(it.func, ast.Name) and it.func.id == "enumerate" and len(it.args) == 1 and isinstance(it.args[0], ast.Name) and it.args[0].id == t_shape and isinstance(f.target, ast.Tuple) and len(f.target.elts) == 2:
+            axv, szv = [e.id for e in f.target.elts]
+            if len(f.body) == 1 and isinstance(f.body[0], ast.If) and not f.body[0].orelse:
+                cond = f.body[0].test
+                cn = names(cond)
+                cond_ok = isinstance(cond, ast.Compare) and len(cond.ops) == 1 and isinstance(cond.ops[0], ast.Eq) and isinstance(cond.left, ast.Name) and cond.left.id == szv and isinstance(cond.comparators[0], ast.Constant) and cond.comparators[0].value == 1
+                body_ok = len(f.body[0].body) == 1 and isinstance(f.body[0].body[0], ast.Assign) and _is_sum_of(f.body[0].body[0], xp, keepdims=True, axis_name=axv)
+                if not cond_ok:
+                    why2 = f"the size-1 reduction is guarded by `{norm_text(cond)}`, which is not just `size == 1` on the TARGET's shape" + (" (it also reads x)" if xp in cn else "")
+                elif not body_ok:
+                    why2 = "the size-1 reduction is not `x = sum(x, axis=axis, keepdims=True)`"
+                ok2 = cond_ok and body_ok
+    _ok(ctx, "A3.helper", "unbroadcast: every target axis of size 1 is summed with keepdims, decided by the target only", ok2, loc, f"{q}:size1", why2, "an argument with a size-1 axis broadcast against an array whose matching axis has length 0 (empty batch) or 1")
+    # (3)
+    ok3 = False
+    for i in ifs:
+        c = i.test
+        if isinstance(c, ast.BoolOp) and isinstance(c.op, ast.And) and len(c.values) == 2:
+            a, b = c.values
+            a_ok = isinstance(a, ast.Call) and getattr(a.func, "attr", getattr(a.func, "id", "")) == "iscomplexobj" and xp in names(a)
+            b_ok = isinstance(b, ast.UnaryOp) and isinstance(b.op, ast.Not) and isinstance(b.operand, ast.Name) and b.operand.id == t_cplx
+            body_ok = len(i.body) == 1 and isinstance(i.body[0], ast.Assign) and isinstance(i.body[0].value, ast.Call) and getattr(i.body[0].value.func, "attr", "") == "real"
+            ok3 = a_ok and b_ok and body_ok and not i.orelse
+    _ok(ctx, "A3.helper", "unbroadcast: complex -> real only when the target is real", ok3, loc, f"{q}:kind", "the kind cast of unbroadcast is not `if iscomplexobj(x) and not target_iscomplex: x = real(x)`", "a real argument combined with a complex one")
+    rets = [s for s in fn.body if isinstance(s, ast.Return)]
+    okr = len(rets) == 1 and isinstance(rets[0].value, ast.Name) and rets[0].value.id == xp and fn.body[-1] is rets[0]
+    _ok(ctx, "A3.helper", "unbroadcast: single return of the reduced value", okr, loc, f"{q}:return", "unbroadcast has an early / different return", "any broadcasting binary operation")
+    # broadcast (numpy_jvps)
+    m2, fn2 = world.repo.find_def("autograd.numpy.numpy_jvps", "broadcast")
+    loc2 = loc_of(m2, fn2)
+    q2 = "autograd.numpy.numpy_jvps.broadcast"
+    xp2, tp2 = fn2.args.args[0].arg, fn2.args.args[1].arg
+    wh = [s for s in fn2.body if isinstance(s, ast.While)]
+    fo = [s for s in fn2.body if isinstance(s, ast.For)]
+    okb1 = len(wh) == 1 and isinstance(wh[0].test, ast.Compare) and isinstance(wh[0].test.ops[0], ast.Lt) and any(isinstance(c, ast.Call) and getattr(c.func, "attr", "") == "expand_dims" for c in ast.walk(wh[0]))
+    okb2 = False
+    if len(fo) == 1 and len(fo[0].body) == 1 and isinstance(fo[0].body[0], ast.If):
+        c = fo[0].body[0].test
+        okb2 = isinstance(c, ast.Compare) and isinstance(c.ops[0], ast.Eq) and isinstance(c.comparators[0], ast.Constant) and c.comparators[0].value == 1 and any(isinstance(x, ast.Call) and getattr(x.func, "attr", "") == "repeat" for x in ast.walk(fo[0].body[0]))
+    okb3 = isinstance(fn2.body[-1], ast.Return) and isinstance(fn2.body[-1].value, ast.Name) and fn2.body[-1].value.id == xp2
+    _ok(ctx, "A3.helper", "broadcast: expand to target_ndim, repeat size-1 axes to the target's size, return it", okb1 and okb2 and okb3, loc2, f"{q2}:structure", "broadcast(x, target) no longer expands leading axes and repeats size-1 axes up to the target's shape", "forward mode through add/subtract/mod with a smaller differentiated argument")
+
+
+def _is_sum_of(assign, xp, keepdims, axis_name=None):
+    import ast
+
+    v = assign.value
+    if not (isinstance(assign.targets[0], ast.Name) and assign.targets[0].id == xp and isinstance(v, ast.Call)):
+        return False
+    if getattr(v.func, "attr", getattr(v.func, "id", "")) != "sum":
+        return False
+    if not (v.args and isinstance(v.args[0], ast.Name) and v.args[0].id == xp):
+        return False
+    kws = {k.arg: k.value for k in v.keywords}
+    if "axis" not in kws:
+        return False
+    if axis_name is not None and not (isinstance(kws["axis"], ast.Name) and kws["axis"].id == axis_name):
+        return False
+    kd = kws.get("keepdims")
+    has_kd = isinstance(kd, ast.Constant) and kd.value is True
+    return has_kd if keepdims else (kd is None or (isinstance(kd, ast.Constant) and kd.value is False))
+
+
+def _ok(ctx, rule, inst, ok, loc, construct, why, witness):
+    if ok:
+        ctx.ob(rule, inst, True, loc)
+    else:
+        ctx.fail(rule, inst, construct, loc, why, witness)
